@@ -35,6 +35,9 @@ def run(ctx, R, tier):
     # 'a sound finishing frees its slot at the next callback': a streaming sound whose decoder failed is finished in every state
     from .c10 import err_gate_first
     err_gate_first(F, R, rule='B.C08.finish')
+    static_end_in_step(F, R)
+    from .c09 import end_rule
+    end_rule(F, R, rule='B.C08.finish')
     keys(F, R)
     reserve(F, R)
     play_inserts(F, R)
@@ -49,6 +52,38 @@ def run(ctx, R, tier):
         run_witnesses(R, 'C08')
         from ..creation import run_creation
         run_creation(ctx, R)
+
+
+def static_end_in_step(F, R, rule='B.C08.finish'):
+    """A static sound is over in the very step that consumes its last source frame: between a push into the resampler
+    inside the frame loop and the next turn of the loop that holds the push, the end test (`!transport.playing && ..`) is
+    passed, and it leads to mark_as_stopped.  A test that sits anywhere later (the top of the next output frame, the next
+    callback) keeps a sound that ends on the last frame of a callback loaded, its handle saying Playing and its slot taken,
+    for one more callback."""
+    ST = 'sound::static_sound::sound::StaticSound'
+    v = F.inlined_view('<%s as sound::Sound>::process' % ST, depth=3, pred=lambda hp: hp.startswith(ST + '::'))
+    if not R.check(v is not None, rule, 'anchor:static-end', 'StaticSound::process not found'):
+        return
+    pushes = [x for x, t in v.calls() if (callee_path(t) or '').endswith('resampler::Resampler::push_frame') and v.in_loop(x)]
+    tests = [g for g in range(v.n) if v.blocks[g]['term']['k'] == 'switch' and not v.blocks[g].get('cleanup')
+             and describe(v, v.blocks[g]['term']['op'], depth=3, at=g).endswith('transport.playing')]
+    marks = [x for x, t in v.calls() if (callee_path(t) or '').endswith('PlaybackStateManager::mark_as_stopped') and v.in_loop(x)]
+    ok = bool(pushes) and bool(tests) and bool(marks)
+    why = 'no push into the resampler / no end test / no mark_as_stopped inside the frame loop' if not ok else ''
+    for p in pushes if ok else []:
+        inner = min((l for l in v.loops() if p in l['blocks']), key=lambda l: len(l['blocks']))
+        nxt = [x for x in v.succ(p)]
+        after = [t for t in tests if t in inner['blocks']]
+        if not after or not must_pass(v, nxt, [inner['header']], after):
+            ok = False
+            why = 'after a frame is pushed into the resampler the loop can go round without testing whether that was the last one'
+            break
+        if not any(v.dominates(t, m) and m in inner['blocks'] for t in after for m in marks):
+            ok = False
+            why = 'the end test of the stepping loop does not lead to mark_as_stopped'
+            break
+    R.check(ok, rule, 'static:end-in-step', 'StaticSound: %s (a sound that ends on the last frame of a callback stays loaded one more callback)' % why,
+            detail={'pushes': len(pushes), 'tests': len(tests)}, where=v.file)
 
 
 def capacities(F, R):
